@@ -18,7 +18,7 @@ of `_wait_for_acknowledgement` over `read_message(ack=True)`, run with whatever 
 at that moment), `disconnect()`, sends on a dead connection, subscription changes, reads — any history:
 * `never_connected_refuses`, `lost_then_refuses` — `NotConnectedError` before any connect and after a lost connection;
 * `connect_resets_iff_joined` — what `connect()` resets and what it keeps, exactly (joined ⇒ connected, empty sets;
-  lost ⇒ disconnected; timeout / decode error ⇒ still "connected", sets as they were);
+  lost / timeout / decode error ⇒ disconnected, socket closed, sets as they were — fix 5d9f32d, finding C02-F4);
 * `handshake_ignores_stale_subscriptions` (from `waitAck_eq_ref`) — on every well-formed stream the wait for the ACK
   is the frame-level reference of ONE `read_message(timeout>0, ack=True)` of a client subscribed to nothing: stale
   sets cannot influence the handshake;
@@ -336,11 +336,11 @@ theorem never_connected_refuses (cfg : Cfg) (tmo : Tmo) (ack sync : Bool) :
   disconnected_refuses cfg tmo ack sync St.fresh rfl
 
 /-- **After a lost connection every read is refused until the next `connect()`**: a read that raised
-`ConnectionLost`, a send that hit a dead connection, a `connect()` whose handshake found the peer gone, and
-`disconnect()` all leave `connected = False`. -/
+`ConnectionLost`, a send that hit a dead connection, a `connect()` that did not return (peer gone, no ACK in time,
+an undecodable frame in front of the ACK), and `disconnect()` all leave `connected = False`. -/
 theorem lost_then_refuses (cfg : Cfg) (tmo : Tmo) (ack sync : Bool) (st : St) (new : Sock) :
     (st.connected = true → (sendFailCall st).1 = ⟨.lost, 0, false⟩ ∧ (sendFailCall st).2.connected = false) ∧
-    ((connectCall cfg st new).1.res = .lost → (connectCall cfg st new).2.connected = false) ∧
+    ((connectCall cfg st new).1.res ≠ .joined → (connectCall cfg st new).2.connected = false) ∧
     (disconnectCall st).connected = false ∧
     (∀ st' : St, st'.connected = false →
       readMessage cfg tmo ack sync st' = (⟨.notConnected, 0, false⟩, st')) := by
@@ -351,13 +351,14 @@ theorem lost_then_refuses (cfg : Cfg) (tmo : Tmo) (ack sync : Bool) (st : St) (n
   cases res <;> simp [connectOut, CRes.ofRes]
 
 /-- **What `connect()` resets and what it keeps**, exactly: an accepted one (it returned) leaves the client
-connected and subscribed to nothing; one that lost the connection leaves it disconnected; any other way out
-(`AcknowledgementTimeout`, a decode error escaping from the wait) leaves it "connected" to the new socket — and in
-the last two cases the subscription state is what it was (empty if `connect()` had to disconnect first). -/
+connected and subscribed to nothing; any other way out (`ConnectionLost`, `AcknowledgementTimeout`, a decode error
+escaping from the wait) leaves it disconnected from a closed socket (fix 5d9f32d, finding C02-F4) with the
+subscription state it had (empty if `connect()` had to disconnect first) — which the next accepted connect resets. -/
 theorem connect_resets_iff_joined (cfg : Cfg) (st : St) (new : Sock) :
     ((connectCall cfg st new).1.res = .joined →
       (connectCall cfg st new).2.connected = true ∧ (connectCall cfg st new).2.sub = ⟨false, []⟩) ∧
     ((connectCall cfg st new).1.res ≠ .joined →
+      (connectCall cfg st new).2.connected = false ∧ (connectCall cfg st new).1.connected = false ∧
       (connectCall cfg st new).2.sub = if st.connected then ⟨false, []⟩ else st.sub) := by
   unfold connectCall
   generalize waitAck cfg (subAtHandshake st) (new.data.length + 1) new = r
@@ -493,48 +494,48 @@ theorem life_history_meets_spec (cfg : Cfg) : ∀ (calls : List SCall) (p : Pre)
       rw [← hO]; exact readMessage_connected cfg .pos true false w.pre.st
     have hsub2 : (readMessage cfg .pos true false w.pre.st).2.sub = ⟨false, []⟩ :=
       readMessage_sub cfg .pos true false w.pre.st
+    have hclosed : ∀ sub, (⟨Sock.dead, false, sub⟩ : St) = (w.pre.closed sub).st := fun _ => rfl
+    have hsubAt : subAtHandshake p.st = (if p.connected = true then ⟨false, []⟩ else p.sub) := rfl
     cases hres : o.res with
     | msg h pl =>
       have hnb : (obsOf cfg w.pre hsArgs).res ≠ .blocked := by rw [hobs, hres]; simp
       obtain ⟨p', h1, h2, h3, _⟩ := advance_tracks_model cfg w.pre hsArgs hww hnb
       rw [hobs] at h1
       have hm1 : (Res.msg h pl == Res.lost) = false := by rw [beq_eq_false_iff_ne]; intro hh; cases hh
-      have hadv : w.pre.advance ⟨.none, o.consumed, o.connected⟩ = some p' := by
-        rw [← h1]; exact advance_congr _ _ _ (by rw [hres, hm1]; rfl) rfl rfl
+      have hcon : o.connected = true := by
+        have hsp := hspec
+        rw [hobs] at hsp
+        simp only [specOk, clauses, List.all_cons, List.all_nil, Bool.and_true, Bool.and_eq_true] at hsp
+        obtain ⟨_, _, _, _, _, _, hl, _, _⟩ := hsp
+        simpa [hres, hm1, Res.isNormal, Wire.pre] using hl
+      have hadv : w.pre.advance ⟨.none, o.consumed, true⟩ = some p' := by
+        rw [← h1]; exact advance_congr _ _ _ (by rw [hres, hm1]; rfl) rfl hcon.symm
       have h3' : p'.st = (readMessage cfg .pos true false w.pre.st).2 := h3
-      have hst : p'.st = ⟨(readMessage cfg .pos true false w.pre.st).2.sock, o.connected, noSub⟩ := by
-        rw [h3', ← hconn2, ← show (readMessage cfg .pos true false w.pre.st).2.sub = noSub from hsub2]
-      simp only [connNext, CRes.ofRes, beq_self_eq_true, Bool.true_or, if_true, Res.isMsg]
-      have hne : (CRes.joined == CRes.lost) = false := by decide
-      simp only [hne, Bool.false_eq_true, if_false, hadv]
+      have hc2 : (readMessage cfg .pos true false w.pre.st).2.connected = true := by rw [hconn2]; exact hcon
+      have hst : p'.st = ⟨(readMessage cfg .pos true false w.pre.st).2.sock, true, noSub⟩ := by
+        rw [h3']
+        generalize (readMessage cfg .pos true false w.pre.st).2 = R at hc2 hsub2 ⊢
+        obtain ⟨rs, rc, rsub⟩ := R
+        simp only at hc2 hsub2
+        rw [hc2, hsub2]; rfl
+      simp only [connNext, CRes.ofRes, beq_self_eq_true, if_true, Res.isMsg, hadv]
       rw [← hst]
       exact life_history_meets_spec cfg cs p' h2 hcs
     | lost =>
-      have hnb : (obsOf cfg w.pre hsArgs).res ≠ .blocked := by rw [hobs, hres]; simp
-      obtain ⟨p', h1, h2, h3, _⟩ := advance_tracks_model cfg w.pre hsArgs hww hnb
-      rw [hobs] at h1
-      have hadv : w.pre.advance ⟨.lost, o.consumed, o.connected⟩ = some p' := by
-        rw [← h1]; exact advance_congr _ _ _ (by rw [hres]) rfl rfl
-      simp only [connNext, CRes.ofRes, beq_self_eq_true, Bool.or_true, if_true, Res.isMsg]
-      have hne : (CRes.lost == CRes.joined) = false := by decide
-      simp only [hne, Bool.false_eq_true, if_false, hadv]
-      have h3' : p'.st = (readMessage cfg .pos true false w.pre.st).2 := h3
-      have hsock : p'.sock = (readMessage cfg .pos true false w.pre.st).2.sock := congrArg St.sock h3'
-      have hcon : p'.connected = o.connected := by rw [← hconn2]; exact congrArg St.connected h3'
-      have hst : ({ p' with sub := if p.connected = true then ⟨false, []⟩ else p.sub } : Pre).st =
-          ⟨(readMessage cfg .pos true false w.pre.st).2.sock, o.connected, subAtHandshake p.st⟩ := by
-        show (⟨p'.sock, p'.connected, _⟩ : St) = _
-        rw [hsock, hcon]
-        rfl
-      rw [← hst]
-      refine life_history_meets_spec cfg cs _ ?_ hcs
-      simpa [Pre.wf] using h2
-    | none => simp [connNext, CRes.ofRes]
-    | unknownType h r => simp [connNext, CRes.ofRes]
-    | invalidDef => simp [connNext, CRes.ofRes]
-    | notConnected => simp [connNext, CRes.ofRes]
-    | blocked => simp [connNext, CRes.ofRes]
-    | crash => simp [connNext, CRes.ofRes]
+      simp only [connNext, CRes.ofRes, Res.isMsg, Bool.false_eq_true, if_false, hclosed, hsubAt]
+      exact life_history_meets_spec cfg cs _ (closed_wf cfg w.pre _ hww) hcs
+    | none =>
+      simp only [connNext, CRes.ofRes, Res.isMsg, Bool.false_eq_true, if_false, hclosed, hsubAt]
+      exact life_history_meets_spec cfg cs _ (closed_wf cfg w.pre _ hww) hcs
+    | unknownType h r =>
+      simp only [connNext, CRes.ofRes, Res.isMsg, Bool.false_eq_true, if_false, hclosed, hsubAt]
+      exact life_history_meets_spec cfg cs _ (closed_wf cfg w.pre _ hww) hcs
+    | invalidDef =>
+      simp only [connNext, CRes.ofRes, Res.isMsg, Bool.false_eq_true, if_false, hclosed, hsubAt]
+      exact life_history_meets_spec cfg cs _ (closed_wf cfg w.pre _ hww) hcs
+    | notConnected => simp [connNext, CRes.ofRes, CRes.isNormal]
+    | blocked => simp [connNext, CRes.ofRes, CRes.isNormal]
+    | crash => simp [connNext, CRes.ofRes, CRes.isNormal]
   | .disconnect :: cs, p, hw, hcw => by
     simp only [List.map_cons, SCall.toL, runLife, lifeStep, lifeHistOk]
     have hst : disconnectCall p.st = (p.closed ⟨false, []⟩).st := rfl
@@ -635,14 +636,14 @@ example : runLife exCfgA ([.connect (wireOf [fAck] .idle), .setSub ⟨true, [214
       .connect (wireOf [fGood, fAck, fGood] .idle), .read .zero false true].map SCall.toL) St.fresh =
     [.conn ⟨.joined, 48, true⟩, .unit, .conn ⟨.lost, 0, false⟩, .conn ⟨.joined, 98, true⟩, .read ⟨.none, 50, true⟩] := by
   decide +kernel
-/-- before any connect; a handshake that never sees an ACK (timeout: still "connected", nothing reset); one whose
-peer closes; an undecodable frame before the ACK escapes from `connect()` -/
+/-- before any connect; a handshake that never sees an ACK (timeout: disconnected, socket closed, sets kept); one
+whose peer closes; an undecodable frame before the ACK escapes from `connect()` -/
 example : runLife exCfgA [.read .neg true true, .sendFail, .disconnect] St.fresh =
     [.read ⟨.notConnected, 0, false⟩, .conn ⟨.notConnected, 0, false⟩, .unit] := by decide +kernel
 example : (connectCall exCfgA ⟨Sock.dead, false, ⟨false, [10]⟩⟩ (wireOf [fGood] .idle).sock) =
-    (⟨.ackTimeout, 50, true⟩, ⟨⟨[], .idle⟩, true, ⟨false, [10]⟩⟩) := by decide +kernel
+    (⟨.ackTimeout, 50, false⟩, ⟨Sock.dead, false, ⟨false, [10]⟩⟩) := by decide +kernel
 example : (connectCall exCfgA St.fresh (wireOf [fGood] .fin).sock).1 = ⟨.lost, 50, false⟩ := by decide +kernel
-example : (connectCall exCfgA St.fresh (wireOf [fUnknown, fAck] .idle).sock).1 = ⟨.unknownType, 51, true⟩ := by
+example : (connectCall exCfgA St.fresh (wireOf [fUnknown, fAck] .idle).sock).1 = ⟨.unknownType, 51, false⟩ := by
   decide +kernel
 /-- the hypotheses of `life_history_meets_spec` are satisfiable, the oracle accepts the model's trace, and it is
 not trivially true: a second session that hands out the frame of the old type fails `returned_type_subscribed` -/
